@@ -2,7 +2,7 @@
     evaluated inside Coq by the generated cases files.  No proofs here. *)
 From Coq Require Import ZArith List Bool.
 From Coq Require Import Uint63 FloatOps SpecFloat PrimFloat.
-From PV Require Import Model.Base Model.Emu.
+From PV Require Import Model.Base Model.Emu Model.EmuHist.
 Import ListNotations.
 Open Scope Z_scope.
 
@@ -48,6 +48,9 @@ Inductive echeck :=
 | CMultinomial (probs us : list float) (impl : list Z)
 (** SimulationResults._get_index_from_time *)
 | CIndex (t tol : float) (times : list float) (impl : Z + Z)
+(** the bad-atom map observed on one emulator after each step of a
+    configuration history (constructor first) *)
+| CHist (n : nat) (ops : list hop) (observed : list (list bool))
 (** EmulationConfig creation (1 ok / error code) and re-creation *)
 | CConfig (d : detimes) (first second : Z).
 
@@ -98,6 +101,8 @@ Definition run_check (c : echeck) : bool :=
       | Err e, inr code => err_code e =? code
       | _, _ => false
       end
+  | CHist n ops observed =>
+      forallb2 (fun a b => forallb2 Bool.eqb a b) (trace_hist n hist_init ops) observed
   | CConfig d first second =>
       let code r := match r with Ok _ => 1 | Err e => - err_code e end in
       (code (config_init d) =? first) && (code (config_recreate d) =? second)
